@@ -441,6 +441,12 @@ func Document(t *rapid.T, o DocOpts) *DocCase {
 	nmem := 0
 	if c.IsList() {
 		nmem = rapid.IntRange(0, Upto(t, "nmembers", 5)).Draw(t, "nmembers")
+
+		// Now and then a collection of a size at which an implementation may
+		// switch strategy (batches, indexes, worker pools).
+		if rapid.IntRange(0, 24).Draw(t, "manymembers") == 0 {
+			nmem = rapid.IntRange(30, 70).Draw(t, "nmembers-many")
+		}
 	}
 
 	switch kind {
